@@ -580,6 +580,10 @@ func (r *Reader) ExtractText(page *pages.Page) (string, error) {
 	return extractor.GetText(), nil
 }
 
+// maxPageContentBytes is the most decoded content one page may have (the budget
+// the text extractor also gives the Form XObjects of a content stream).
+const maxPageContentBytes = 64 << 20
+
 // extractTextWithFragments is the internal implementation that returns both
 // the extractor (for GetText) and the fragments
 func (r *Reader) extractTextWithFragments(page *pages.Page) (*text.Extractor, []text.TextFragment, error) {
@@ -602,6 +606,12 @@ func (r *Reader) extractTextWithFragments(page *pages.Page) (*text.Extractor, []
 		data, err := stream.Decode()
 		if err != nil {
 			return nil, nil, fmt.Errorf("failed to decode content stream: %w", err)
+		}
+		// A /Contents array may name the same stream any number of times, six
+		// bytes per mention: 5000 mentions of one 1 MB stream (a 1 MB file) were
+		// concatenated into 5 GB and the process ran out of memory.
+		if len(allData)+len(data) > maxPageContentBytes {
+			return nil, nil, fmt.Errorf("content streams of the page exceed %d bytes", maxPageContentBytes)
 		}
 		allData = append(allData, data...)
 		// The streams of a /Contents array are split at token boundaries, but a
